@@ -49,7 +49,7 @@ pub fn def() -> PropertyDef {
 
 fn generators(cfg: &Cfg) -> Vec<Generator> {
     vec![
-        Generator { name: "storm", total: cfg.tier.pick(24, 480), run: run_storm, case_cpu_limit_s: 900 },
+        Generator { name: "storm", total: cfg.tier.pick(48, 480), run: run_storm, case_cpu_limit_s: 900 },
         Generator { name: "allocators", total: cfg.tier.pick(8, 64), run: run_allocators, case_cpu_limit_s: 300 },
         Generator { name: "resolved", total: cfg.tier.pick(60, 1200), run: crate::props::c17_resolved::run_resolved, case_cpu_limit_s: 300 },
         Generator { name: "lsp", total: cfg.tier.pick(16, 160), run: crate::props::c17_lsp::run_lsp, case_cpu_limit_s: 900 },
